@@ -28,6 +28,7 @@ CONSTANTS
     MaxGrow,        \* how many times the served head of a timeline may grow
     ServeTls,       \* timelines the server may answer from, at no fault cost
     MaxSwitch,      \* how many times the server may change the timeline it answers from
+    MaxEnv,         \* how many times another honest process (not one of Clients) stores a newer head in the shared configuration
     Coarse,         \* TRUE: a lookup starts only when no other lookup is in progress (sequential multi-client histories)
     MaxFaults,      \* number of corrupted responses (network or cache) per behaviour
     FaultKinds,     \* enabled corruption kinds
@@ -155,7 +156,7 @@ Init ==
               THEN LET fulls == {x \in Tiles!AllTiles(H, SizeA) : x.w = Pow2(H)} IN
                    [f \in {TileFile(x) : x \in fulls} |-> TrueTileData("A", CHOOSE x \in fulls : TileFile(x) = f)]
               ELSE <<>>                   \* function with empty domain
-    /\ srv \in {[n |-> [tl \in Timelines |-> InitServed[tl]], grown |-> 0, cur |-> tl0, sw |-> 0] : tl0 \in ServeTls}
+    /\ srv \in {[n |-> [tl \in Timelines |-> InitServed[tl]], grown |-> 0, cur |-> tl0, sw |-> 0, env |-> 0] : tl0 \in ServeTls}
     /\ mem = [c \in Clients |-> EmptyMsg]
     /\ inited = [c \in Clients |-> "no"]
     /\ recCache = [c \in Clients |-> <<>>]
@@ -186,6 +187,20 @@ Switch(tl) == /\ srv.sw < MaxSwitch
               /\ tl \in ServeTls /\ tl # srv.cur
               /\ srv' = [srv EXCEPT !.cur = tl, !.sw = @ + 1]
               /\ UNCHANGED <<cfg, disk, mem, inited, recCache, tileMem, tileSaved, pc, loc, stk, done, results, faults, restarts, sec, hist>>
+
+\* another honest process that shares the configuration file (a second go command) stores a newer head of the honest log
+\* there - at the worst moment: while a thread of ours stands between reading the file and its compare-and-swap.  Any number
+\* of such writers may win the swap in a row; each time the thread must go around again.
+EnvStore(n) == /\ srv.env < MaxEnv
+               /\ \E t \in Threads : pc[t] = "ml_write"
+               /\ cfg.kind \in {"empty", "good"}
+               \* (it talks to the same server: its head is one of the timeline served now, and it only moves the file forward)
+               /\ n > (IF cfg.kind = "good" THEN cfg.n ELSE 0) /\ n <= srv.n[srv.cur]
+               /\ cfg.kind = "good" => PrefixOf(cfg, GoodHead(srv.cur, n))
+               /\ cfg' = GoodHead(srv.cur, n)
+               /\ srv' = [srv EXCEPT !.env = @ + 1]
+               /\ Log([op |-> "EnvStore", head |-> cfg'])
+               /\ UNCHANGED <<disk, mem, inited, recCache, tileMem, tileSaved, pc, loc, stk, done, results, faults, restarts, sec>>
 
 \* ------------------------------------------------------------------ Lookup
 StartLookup(t) ==
@@ -639,6 +654,7 @@ Next == \/ \E t \in Threads : ThreadStep(t)
         \/ \E tl \in Timelines : Grow(tl)
         \/ \E tl \in Timelines : Switch(tl)
         \/ \E c \in Clients : Restart(c)
+        \/ \E n \in 1..SizeA : EnvStore(n)
 
 Spec == Init /\ [][Next]_vars
 
